@@ -16,6 +16,8 @@ void sched_event(const char* fmt, ...);
 void sched_set_next_tid(int tid);
 // pthread_create may fail (EAGAIN) this many times; call after sched_begin
 void sched_set_create_failures(int n);
+// sem_timedwait may fail with ENOSYS this many times (alternative 3; Semaphore::wait(timeout) then polls with sem_trywait + usleep)
+void sched_set_enosys(int n);
 // thread 0 has finished its program; never returns (the run ends with a verdict line and _exit)
 void sched_main_done();
 // a contract violation noticed by the scenario interpreter itself (critical-section occupancy)
